@@ -177,7 +177,7 @@ def plan(prop, tier, seed):
             G.append([(name, f(S(), *a, **kw))])
     if prop == "C01":
         data(n(50, 600)); data(n(10, 80), with_close=True, updates=True); fam(n(20, 200), scen.window_session, "window"); data(n(3, 30), big_groups=True)
-        fam(n(12, 200), scen.deep_session, "deep"); fam(n(6, 60), scen.queue_full_session, "queue-full"); fam(n(10, 150), scen.renak_session, "renak")
+        fam(n(12, 200), scen.deep_session, "deep"); fam(n(6, 60), scen.queue_full_session, "queue-full"); fam(n(10, 150), scen.renak_session, "renak"); fam(n(6, 80), scen.burst_session, "burst")
     elif prop == "C02":
         data(n(40, 400)); data(n(12, 150), faults=False); fam(n(40, 500), scen.window_session, "window"); fam(n(25, 400), scen.refresh_session, "refresh"); fam(n(4, 40), scen.queue_full_session, "queue-full")
     elif prop == "C03":
@@ -217,7 +217,7 @@ def plan(prop, tier, seed):
         fam(n(60, 1500), scen.inject_session, "inject")
         data(n(5, 40), big_groups=True)
     elif prop == "C10":
-        data(n(80, 1200), with_close=True, updates=True); fam(n(40, 600), scen.close_burst_session, "close-burst"); fam(n(6, 100), scen.many_channels_session, "many-channels")
+        data(n(80, 1200), with_close=True, updates=True); fam(n(40, 600), scen.close_burst_session, "close-burst"); fam(n(6, 100), scen.many_channels_session, "many-channels"); fam(n(12, 150), scen.burst_session, "burst")
     elif prop == "C11":
         data(n(30, 400)); data(n(15, 150), with_close=True, updates=True); fam(n(10, 100), scen.large_session, "large"); fam(n(12, 200), scen.unit_session, "unit")
         fam(n(25, 400), scen.inject_session, "inject")
